@@ -322,6 +322,9 @@ func SolveAll(fvs []*FuncVC, want func(*Obligation) bool, budget, fpBudget, seed
 			if j.o.Expect == "sat" {
 				b = 8
 			}
+			if j.region == "inside" {
+				b = 10 // a known finding is expected to fail; no point in waiting for a proof
+			}
 			name += fmt.Sprintf("~%d", i)
 			st, solver, out, secs, file := solveQuery(name, txt, txtC, b, seed, fp)
 			r := &Result{Obl: j.o, FV: j.fv, Solver: solver, Secs: secs, Output: out, File: file, Region: j.region}
